@@ -20,6 +20,18 @@ loops shared with the code), for 201 layers (the Python code) and for 200 layers
 (the shipped R script, transcribed - Rscript is not installed and the R code is
 not executed); np.interp between knots and constant beyond; the transmissivity
 formula with math.pow; refusal exactly above the ceiling.
+
+History stage (runs first, before this process has built any PEATCLSM
+function): sequences of specific-yield functions built one after the other in
+ONE process - same (theta_s, b, psi_s) with different sd, and same sd with one
+soil parameter changed at a time, the first set coming back at the end - each
+compared at its 201 tabulated levels (and through the callable) with the
+profile of its OWN parameters; likewise transmissivity objects differing in one
+of (Ksmacz0, alpha, zeta_max) asked at the same levels, earlier ones kept alive
+and asked again.  A profile, table or parameter remembered from an earlier
+function (module-level memo, mutable default, class attribute, id() reuse)
+shows up only there.  The case holds the whole sequence and what was built
+before it, so its replay rebuilds the history in a fresh process.
 """
 import concurrent.futures as cf
 import hashlib
@@ -53,8 +65,12 @@ def fr(p):
 
 # ------------------------------------------------------------- implementation
 
+_BUILT = []     # every parameter set handed to the factory by this process, in order
+
+
 def impl_sy(p):
     import spowtd.specific_yield as sy
+    _BUILT.append(dict(p))
     with warnings.catch_warnings():
         warnings.simplefilter('ignore')
         return sy.create_specific_yield_function(
@@ -169,7 +185,8 @@ def check_sy(psets, out, label, knots_for, seed=0):
     """psets: (name, parameters); knots_for(name, p) -> levels to enclose in Coq ([] = oracle only)."""
     todo = []
     for n, (name, p) in enumerate(psets):
-        pj = dict(level='sy', name=name, p=p)
+        # what this process built before belongs to the failing input (replay rebuilds it first)
+        pj = dict(level='sy', name=name, p=p, built_before=list(_BUILT))
         out.count('params:' + name.split('#')[0])
         try:
             S = impl_sy(p)
@@ -192,7 +209,7 @@ def check_sy(psets, out, label, knots_for, seed=0):
             i = int(bad[0])
             out.violation('oracle', 'specific yield at tabulated level %g mm is %r; the discretised Dettmann-Bechtold '
                           'profile (201 layers + surface term) gives %r; parameters %s (%d of 201 levels differ)'
-                          % (knots_mm[i], vals[i], want[i], p, len(bad)), case=pj)
+                          % (knots_mm[i], float(vals[i]), float(want[i]), p, len(bad)), case=pj)
         if name.startswith('published'):
             if not np.allclose(vals, want_r, rtol=1e-5, atol=1e-8):
                 out.violation('oracle', 'published parameter set: values differ from the R reference formulation '
@@ -408,6 +425,181 @@ def check_R_tables(out):
                       % float(np.max(np.abs(got - want_r))), case=dict(level='R'))
 
 
+# ------------------------------------------------------------- history
+
+SD_CHOICES = ['0.05', '0.1', '0.162', '0.3', '0.5', '1.0', '2']
+SOIL_CHOICES = dict(theta_s=['0.5', '0.88', '0.93', '0.3', '1'], b=['2.0', '3.5', '7.4', '12', '20.0'],
+                    psi_s=['-0.01', '-0.024', '-0.05', '-0.1', '-0.5'])
+
+
+def _another(rng, choices, current):
+    return rng.choice([c for c in choices if F(c) != F(current)])
+
+
+def history_psets(seed, count):
+    """Sequences of admissible parameter sets for functions built one after the other in one
+    process: even ones share the soil parameters and differ in sd, odd ones share sd and
+    change one soil parameter at a time; the first set of a sequence comes back at its end.
+    Sequence 0 starts from the published set."""
+    cases = []
+    for k in range(count):
+        rng = C.rng_for(seed, PROP, 'history', k)
+        base = dict(PUBLISHED) if k == 0 else random_pset(rng)
+        if k % 2 == 0:
+            kind = 'same-soil-different-sd'
+            sd1 = _another(rng, SD_CHOICES, base['sd'])
+            sd2 = _another(rng, [c for c in SD_CHOICES if c != sd1], base['sd'])
+            seq = [base, dict(base, sd=sd1), dict(base, sd=sd2), dict(base)]
+        else:
+            kind = 'same-sd-different-soil'
+            seq = [base] + [dict(base, **{name: _another(rng, SOIL_CHOICES[name], base[name])})
+                            for name in ('theta_s', 'b', 'psi_s')] + [dict(base)]
+        cases.append(dict(level='sy-history', kind=kind, keep=bool(k % 4 >= 2), seq=seq))
+    return cases
+
+
+HISTORY_LEVELS = [-5000.0, -995.0, -990.0, -722.5, -301.25, -45.0, -3.3, 0.0, 5.0, 61.7, 333.0, 1005.0, 4000.0]
+
+
+def history_sy_member(p, S, n, when, prev, out, case):
+    """One function of a sequence against the profile of its own parameters."""
+    who = 'PEATCLSM specific yield number %d of a sequence built in one process (%s; %s), parameters %s' % (
+        n + 1, case['kind'], when, p)
+    prev_s = '; built before it: %s' % (prev if prev else 'nothing')
+    zk, want = db_profile(p, 201)
+    knots_mm = np.asarray(S.zeta_knots_mm, dtype=float)
+    vals = np.asarray(S.sy_knots, dtype=float)
+    out.evaluations += 201 + len(HISTORY_LEVELS)
+    if knots_mm.shape != (201,) or not np.allclose(knots_mm, zk, rtol=0, atol=1e-9):
+        out.violation('oracle', '%s: tabulated levels are not -995, -985, ..., 1005 mm%s' % (who, prev_s), case=case)
+        return False
+    bad = np.nonzero(~(np.abs(vals - want) <= 1e-12))[0]
+    if len(bad):
+        i = int(bad[np.argmax(np.abs(vals - want)[bad])]) if np.all(np.isfinite(vals)) else int(bad[0])
+        out.violation('oracle', '%s: specific yield at tabulated level %g mm is %r; the discretised Dettmann-Bechtold '
+                      'profile of these parameters (201 layers + surface term) gives %r (%d of 201 levels differ)%s'
+                      % (who, knots_mm[i], float(vals[i]), float(want[i]), len(bad), prev_s), case=case)
+        return False
+    got = np.asarray(S(np.array(HISTORY_LEVELS)), dtype=float)
+    ref = np.interp(HISTORY_LEVELS, zk, want)
+    for z, g, r in zip(HISTORY_LEVELS, got, ref):
+        if not abs(g - r) <= 1e-12 or float(S(z)) != g:
+            out.violation('oracle', '%s: the function returns %r (array) / %r (scalar) at %r mm; linear interpolation of the '
+                          'profile of these parameters (constant beyond) gives %r%s'
+                          % (who, float(g), float(S(z)), z, float(r), prev_s), case=case)
+            return False
+    return True
+
+
+def check_sy_history(cases, out):
+    import gc
+    for k, case in enumerate(cases):
+        if 'earlier' not in case:
+            # what this process built before this sequence belongs to the failing input
+            case = dict(case, earlier=[{f: c[f] for f in ('level', 'kind', 'keep', 'seq')} for c in cases[:k]])
+        kept, ok, prev = [], True, None
+        for n, p in enumerate(case['seq']):
+            try:
+                S = impl_sy(p)
+            except Exception as e:  # pylint: disable=broad-except
+                out.violation('oracle', 'PeatclsmSpecificYield raises %s: %s for admissible parameters %s as number %d of '
+                              'a sequence built in one process; built before it: %s'
+                              % (type(e).__name__, e, p, n + 1, prev or 'nothing'), case=case)
+                ok = False
+                break
+            ok = history_sy_member(p, S, n, 'earlier ones %s' % ('kept alive' if case['keep'] else 'discarded'), prev,
+                                   out, case)
+            out.count('history:sy-functions')
+            out.count('history:sy:%s:%s' % (case['kind'], 'kept' if case['keep'] else 'discarded'))
+            prev = p
+            if case['keep']:
+                kept.append((n, p, S))
+            del S
+            gc.collect()
+            if not ok:
+                break
+        for n, p, S in reversed(kept[:-1] if ok else []):
+            out.count('history:sy-used-again')
+            if not history_sy_member(p, S, n, 'used again after all %d were built' % len(case['seq']), case['seq'][-1],
+                                     out, case):
+                break
+        del kept
+        gc.collect()
+
+
+def history_T_cases(seed, count):
+    """Sequences of (Ksmacz0, alpha, zeta_max_cm) differing in one parameter at a time, the first
+    one coming back at the end, with common levels: below every ceiling of the sequence, and
+    between the lowest and the highest ceiling (refused by some members, a value for others)."""
+    cases = []
+    for k in range(count):
+        rng = C.rng_for(seed, PROP, 'history-T', k)
+        base = dict(Ks=H.round_sig(H.loguniform(rng, 1e-2, 1e3), 3), alpha=rng.choice([3, 2, 1.5, 7.4, 1.25]),
+                    zmax=rng.choice([1.0, 0.0, 5.0, -3.5, 12.25, 0.3]))
+        seq = [base,
+               dict(base, zmax=base['zmax'] + rng.choice([1.5, 4.0, -2.0])),
+               dict(base, alpha=rng.choice([a for a in (3, 2, 1.5, 7.4, 1.25, 4.5) if a != base['alpha']])),
+               dict(base, Ks=H.round_sig(base['Ks'] * rng.choice([0.5, 3.0, 10.0]), 3)),
+               dict(base)]
+        tops = [10 * c['zmax'] for c in seq]
+        lo, hi = min(tops), max(tops)
+        levels = sorted({round(lo - H.loguniform(rng, 0.5, 2500.0), 3) for _ in range(4)} | {round(0.5 * (lo + hi), 3),
+                                                                                            round(hi + 3.0, 3)})
+        cases.append(dict(level='T-history', seq=seq, levels=levels))
+    return cases
+
+
+def check_T_history(cases, out):
+    import spowtd.transmissivity as tm
+
+    def ask(T, z, form):
+        try:
+            with warnings.catch_warnings():
+                warnings.simplefilter('ignore')
+                v = T(np.array([z, z - 7.0]))[0] if form == 'array' else T(z)
+                return ('ok', float(v))
+        except Exception as e:  # pylint: disable=broad-except
+            return ('err', C.err_of(e))
+
+    for k, case in enumerate(cases):
+        if 'earlier' not in case:
+            case = dict(case, earlier=[{f: c[f] for f in ('level', 'seq', 'levels')} for c in cases[:k]])
+        objs = []
+
+        def judge(n, c, T, when, prev):
+            for z in case['levels']:
+                for form in ('scalar', 'array'):
+                    out.evaluations += 1
+                    st, v = ask(T, z, form)
+                    ost, ov = T_oracle(float(c['Ks']), float(c['alpha']), float(c['zmax']), float(z))
+                    good = st == ost and (st == 'err' and v == ov or st == 'ok' and (
+                        v == ov or abs(v - ov) <= float(T_tol(c['alpha'], c['zmax'], z)) * abs(ov)))
+                    if not good:
+                        out.violation('oracle', 'PEATCLSM transmissivity number %d of a sequence built in one process (%s) '
+                                      'with Ksmacz0=%r alpha=%r zeta_max_cm=%r gives %s %r at level %r mm (%s); the '
+                                      'published formula with these parameters gives %s %r; built before it: %s'
+                                      % (n + 1, when, c['Ks'], c['alpha'], c['zmax'], st, v, z, form, ost, ov,
+                                         prev or 'nothing'), case=case)
+                        return False
+            return True
+
+        ok = True
+        for n, c in enumerate(case['seq']):
+            with warnings.catch_warnings():
+                warnings.simplefilter('ignore')
+                T = tm.create_transmissivity_function(dict(type='peatclsm', Ksmacz0=c['Ks'], alpha=c['alpha'],
+                                                           zeta_max_cm=c['zmax']))
+            objs.append(T)
+            out.count('history:T-functions')
+            ok = judge(n, c, T, 'earlier ones kept alive', case['seq'][n - 1] if n else None)
+            if not ok:
+                break
+        for n in reversed(range(len(objs) - 1) if ok else []):
+            out.count('history:T-used-again')
+            if not judge(n, case['seq'][n], objs[n], 'used again after all %d were built' % len(objs), case['seq'][-1]):
+                break
+
+
 # ------------------------------------------------------------- parameter sets
 
 def random_pset(rng):
@@ -476,6 +668,8 @@ def run(ctx, out):
     C.import_spowtd()
     seed, tier = ctx['seed'], ctx['tier']
     rng = C.rng_for(seed, PROP)
+    check_sy_history(history_psets(seed, 3 if tier == 'quick' else 12), out)
+    check_T_history(history_T_cases(seed, 6 if tier == 'quick' else 40), out)
     wide = ('wide', wide_pset(C.rng_for(seed, PROP, 'wide')))
     if tier == 'quick':
         fixed = [200, 199, 190, 150, 101, 100, 99, 98, 60, 20, 1, 0]
@@ -515,7 +709,9 @@ def run(ctx, out):
                 'between / beyond the knots; transmissivity: (Ks 1e-4..1e5, alpha in (1, 20], ceiling, level) with '
                 'levels at the ceiling, above it, 1e-6 below it, one ulp beside it, and down to 3 m below. '
                 'Non-trivial: an enclosed knot with >= 2 unsaturated layers, or a finite transmissivity value; '
-                'distinct by parameters and level.')
+                'distinct by parameters and level. History: sequences of 4-5 specific-yield functions built in one '
+                'process (same soil / different sd; same sd / one soil parameter changed) x 201 levels, and of 5 '
+                'transmissivity objects differing in one parameter x 6 common levels.')
     out.samples = [dict(params=PUBLISHED, knots=[200, 100, 0]), dict(T=PUBLISHED_T, level_mm=-500.0)]
     out.assumptions += [
         'the R reference is transcribed, not executed (Rscript is not installed): Model sy_knot_R / T_R and the '
@@ -530,12 +726,23 @@ def run(ctx, out):
 
 def replay(case, out):
     C.import_spowtd()
-    if case['level'] == 'R':
+    if case['level'] == 'sy-history':
+        check_sy_history([dict(c, earlier=[]) for c in case.get('earlier', [])], C.Outcome(PROP))   # rebuild the history
+        check_sy_history([case], out)
+    elif case['level'] == 'T-history':
+        check_T_history([dict(c, earlier=[]) for c in case.get('earlier', [])], C.Outcome(PROP))
+        check_T_history([case], out)
+    elif case['level'] == 'R':
         check_R_tables(out)
     elif case['level'] == 'T':
         check_T([{k: case[k] for k in ('Ks', 'alpha', 'zmax', 'z', 'form')}], out, 'replay_T')
     elif case.get('name') == 'sd-zero':
         boundary_probes(out)
     else:
+        for q in case.get('built_before', []):
+            try:
+                impl_sy(q)
+            except Exception:  # pylint: disable=broad-except
+                pass
         ks = case.get('knots') or [200, 100, 0]
         check_sy([(case['name'], case['p'])], out, 'replay_sy', lambda name, p: ks, case.get('seed', 0))
